@@ -296,6 +296,18 @@ impl Monitor for C09 {
                 }
                 (Err(m), _) | (_, Err(m)) => out.viol("dropout:validate-panic", format!("validate panicked: {} [{}]", short(&m, 160), desc), detail()),
             }
+            // batched prediction
+            {
+                let probes: Vec<&Tensor> = val.x_tensors.iter().take(70).collect();
+                match (guard(|| a.predict_batch(&probes)), guard(|| twin.predict_batch(&probes))) {
+                    (Ok(p), Ok(q)) => {
+                        if p.len() != q.len() || p.iter().zip(q.iter()).any(|(x, y)| !bits_eq(&flat(x), &flat(y))) {
+                            out.viol("dropout:predict_batch-differs-from-dropout-free", format!("epoch {}: predict_batch() of the trained network differs from the identical network without dropout [{}]", e, desc), detail());
+                        }
+                    }
+                    (Err(m), _) | (_, Err(m)) => out.viol("dropout:predict-panic", format!("predict_batch panicked: {} [{}]", short(&m, 160), desc), detail()),
+                }
+            }
             // predictions on probe inputs
             for x in val.x_tensors.iter().take(4).chain(train.x_tensors.iter().take(2)) {
                 match (guard(|| a.predict(x)), guard(|| twin.predict(x))) {
